@@ -98,7 +98,7 @@ PROPS = {
         level_note='Interleavings are exhaustive only under the preemption bound and at hook granularity (a copy is one step); weak-memory reorderings are not modelled (indices are seq_cst; ThreadSanitizer covers happens-before). Trusts the reference model in harness/c06.cpp.',
         technique='controlled-schedule enumeration (preemption bounding) + sequential model checking of histories + ThreadSanitizer stress with sequence-number oracle',
         stages=[dict(harness='c06', variant='asan', mode='seq', quick=20000, thorough=1000000,
-                     need=['seq.write_accepted', 'seq.write_dropped_full', 'seq.write_dropped_oversize', 'seq.read', 'seq.read_lookahead', 'seq.ring_wrapped', 'seq.observed_empty']),
+                     need=['seq.write_accepted', 'seq.write_dropped_full', 'seq.write_dropped_oversize', 'seq.read', 'seq.read_lookahead', 'seq.ring_wrapped', 'seq.observed_empty', 'seq.large_maxmsg']),
                 dict(harness='c06', variant='asan', mode='sched', quick=96, thorough=480, min_per_shard=1, case_timeout=300,
                      need=['sched.executions', 'sched.distinct_interleavings', 'sched.executions_with_accepted_write']),
                 dict(harness='c06', variant='tsan', mode='stress', quick=6, thorough=20, min_per_shard=1, shards=6, case_timeout=600,
@@ -239,7 +239,7 @@ PROPS = {
         stages=[dict(harness='c09', variant='asan', mode='tree', quick=800, thorough=30000,
                      need=['tree.walks', 'tree.addresses_reported', 'tree.dispatched_back', 'tree.walks_other_options', 'tree.three_digit_indices']),
                 dict(harness='c09', variant='asan', mode='zoo', quick=60, thorough=2000, min_per_shard=1,
-                     need=['zoo.walks', 'zoo.pruned_by_sibling_toggle', 'zoo.pruned_by_own_toggle', 'zoo.pruned_null_pointer', 'zoo.null_pointer_with_toggle_on', 'zoo.pruned_pointer_by_toggle', 'zoo.toggle_name_starts_with_subtree_name'])],
+                     need=['zoo.walks', 'zoo.pruned_by_sibling_toggle', 'zoo.pruned_by_own_toggle', 'zoo.pruned_null_pointer', 'zoo.null_pointer_with_toggle_on', 'zoo.pruned_pointer_by_toggle', 'zoo.toggle_name_starts_with_subtree_name', 'zoo.walks_from_object_table', 'zoo.object_table_walk_of_disabled_object', 'zoo.enabled_by_integer_level_multiple_of_256'])],
         rule='tree: case = one generated tree (2 default walks + dispatch of up to 150 reported addresses + 3 option variants); zoo: case = one generated application x all 256 runtime states; '
              'distinct = hash of the rendered tree / configuration; every case is non-trivial.',
         exhaustive=dict(quick=False, thorough=False),
